@@ -403,3 +403,12 @@ PROPS["C17"]["text"] = (PROPS["C17"]["text"] + " The last clause is proved as we
                         "from today's source by T5.")
 PROPS["C17"]["technique"] = ("Lean 4 proof (birational map; RFC 7748 ladder = u-coordinate of [k]B in the Edwards group) + generated ties of the regenerated functions + "
                              "limb-exact correspondence + RFC 7748 oracle on generated keys")
+
+# tie theorems for the fiat scalar kernels and the six Scalar wrappers (T1 = SSA semantics, every aliasing pattern): 25-70 CPU-minutes to
+# re-check after any change of Gen/Ssa.lean, therefore part of the thorough tier only
+FIAT_TIE_NOTE = ("thorough tier: for the 10 fiat scalar kernels and Scalar.Add/Subtract/Negate/Multiply/Set/Equal of Gen/FiatKernels.lean the shallow translator T1 is not trusted: "
+                 "EdVerif/Ssa/Tie/MainFiat proves that executing the regenerated SSA in EdVerif/Ssa/Sem.lean computes exactly the T1 definition, for all word values (Sub/Opp/Negate/"
+                 "Subtract/Equal under the words-below-2^64 hypothesis the callers establish), on arbitrary heaps and under every aliasing of the pointer arguments")
+for _pid in ("C07", "C08"):
+    PROPS[_pid]["modules_thorough"] = ["EdVerif.Ssa.Tie.MainFiat"]
+    PROPS[_pid]["trusted_extra"] = list(PROPS[_pid].get("trusted_extra", [])) + [FIAT_TIE_NOTE]
